@@ -210,7 +210,7 @@ class SeqEngine(object):
         cwd = None
         try:
             self.world = W.World(self.prog)
-            if self.world.knobs.get("chdir"):
+            if self.world.knobs.get("chdir") or self.world.knobs.get("relstore"):
                 # identifiers that are relative paths of existing files (C18): run inside the sandbox
                 cwd = os.getcwd()
                 os.chdir(self.world.sandbox)
